@@ -10,13 +10,15 @@ ALLKINDS = ["tuple", "list", "gen", "dict", "set", "str", "iter", "short", "long
 def plan(tier, seed):
     rng = random.Random(seed * 7919 + 23)
     if tier == "quick":
-        progs = SK.family_f1(quick=True) + SK.family_f6() + [SK.random_program(rng, 5000 + i) for i in range(60)]
+        progs = SK.family_f1(quick=True) + SK.family_f6() + SK.family_state() + [SK.random_program(rng, 5000 + i) for i in range(60)]
         opts = {"maxiter": 2, "maxraise": 1, "kinds": ["tuple", "list", "gen", "short"], "maxpaths": 6, "seed": seed,
-                "variants": ["tooled", "inplace", "singles", "all", "generic", "totals"], "gen_drive": True}
+                "variants": ["tooled", "inplace", "singles", "all", "generic", "totals"], "gen_drive": True,
+                "exotic": ["eqall", "eqraise", "float", "true"]}
     else:
-        progs = SK.family_f1(quick=False) + SK.family_f6() + [SK.random_program(rng, 5000 + i) for i in range(1500)]
+        progs = SK.family_f1(quick=False) + SK.family_f6() + SK.family_state() + [SK.random_program(rng, 5000 + i) for i in range(1500)]
         opts = {"maxiter": 2, "maxraise": 1, "kinds": ALLKINDS, "maxpaths": 40, "seed": seed, "raise_E": True,
-                "variants": ["tooled", "inplace", "singles", "all", "generic", "pairs", "totals"], "gen_drive": True}
+                "variants": ["tooled", "inplace", "singles", "all", "generic", "pairs", "totals"], "gen_drive": True,
+                "exotic": ["eqall", "eqraise", "float", "true"]}
     return progs, opts
 
 
